@@ -3,6 +3,7 @@ C12 — each query batch gets exactly one verdict; success means all answered.
 Property theorems only; lemmas live in Neutrino/Lemmas.
 -/
 import Neutrino.Spec.Dispatcher
+import Neutrino.Lemmas.Dispatcher
 import Neutrino.Gen.Dispatcher
 namespace Neutrino.Disp
 
@@ -21,5 +22,114 @@ theorem C12_source_facts :
     Gen.Dispatcher.shutdownSendsInDefer = 1 ∧ Gen.Dispatcher.errChanCapOne = true ∧
     Gen.Dispatcher.requeueSameJob = true ∧ Gen.Dispatcher.heapPushes = 2 ∧
     Gen.Dispatcher.queueOrderedByIndex = true ∧ Gen.Dispatcher.orderAscendingScore = true := by decide
+
+/-- number of verdicts written to batch `b`'s result channel so far -/
+def verdictCount (s : State) (b : Nat) : Nat := (s.verdicts.filter (fun x => x.1 == b)).length
+
+/-- **At most one verdict** — for every event list (any interleaving of new
+batches, peers connecting, workers accepting, results of every kind, idle-timer
+wakes fresh or stale, hard deadlines passing, workers exiting, shutdown, late
+submissions) and every batch number, the batch's result channel is written at
+most once.  The channel has capacity 1 (`C12_source_facts`), so this is also
+"a finished batch never blocks the dispatcher". -/
+theorem C12_at_most_once (es : List Ev) (b : Nat) : verdictCount (run init es) b ≤ 1 :=
+  count_le_one_of_nodup _ b (invA_run init es invA_init).nodupVs
+
+/-- **Exactly one verdict once the dispatcher was stopped** — after any event
+list containing `quit`, every batch ever submitted (batch numbers are
+`0 … nextBatch-1`, including batches submitted after the stop) has exactly one
+verdict. -/
+theorem C12_exactly_once_on_quit (es : List Ev) (hq : Ev.quit ∈ es) (b : Nat)
+    (hb : b < (run init es).nextBatch) : verdictCount (run init es) b = 1 := by
+  have inv := invA_run init es invA_init
+  have hquit : (run init es).quit = true := run_quit_of_mem init es hq
+  have hids := inv.quitEmpty hquit
+  have hmem : b ∈ vids (abs (run init es)) := by
+    cases (inv.cover b).mp hb with
+    | inl h => rw [hids] at h; exact absurd h List.not_mem_nil
+    | inr h => exact h
+  exact Nat.le_antisymm (C12_at_most_once es b) (count_pos_of_mem _ b hmem)
+
+/-- every `newBatch` event, before or after shutdown, takes the next batch number -/
+theorem C12_batch_numbers (s : State) (n : Nat) (nrm : Bool) (mr : Nat) (pr hn : Bool)
+    (h : offering s = false ∨ s.quit = true) :
+    (step s (.newBatch n nrm mr pr hn)).1.nextBatch = s.nextBatch + 1 := by
+  unfold step
+  by_cases hq : s.quit = true
+  · simp only [hq, ↓reduceIte, stepLate]
+  · have hq' : s.quit = false := by cases hh : s.quit <;> simp_all
+    cases h with
+    | inl h => simp only [hq', h, Bool.false_eq_true, ↓reduceIte, stepNewBatch]
+    | inr h => exact absurd h hq
+
+/-- **Ranking** — whenever the dispatcher hands out a job, it is the head of
+the queue and goes to a worker that is free, still running, and whose score no
+free worker beats. -/
+theorem C12_rank (s : State) (p idx tries to : Nat)
+    (h : (step s (.accept p)).2 = [.dispatched p idx tries to]) :
+    bestFree s p = true ∧ ∃ job rest, s.work = job :: rest ∧ job.idx = idx ∧
+      (∀ q ∈ freeLive s, scoreOf s.rank p ≤ scoreOf s.rank q.addr) := by
+  unfold step at h
+  by_cases hq : s.quit = true
+  · simp only [hq, ↓reduceIte] at h; cases h
+  · have hq' : s.quit = false := by cases hh : s.quit <;> simp_all
+    simp only [hq', Bool.false_eq_true, ↓reduceIte, stepAccept] at h
+    cases hw : s.work with
+    | nil => simp only [hw] at h; cases h
+    | cons job rest =>
+      simp only [hw] at h
+      by_cases hb : bestFree s p = true
+      · simp only [hb, ↓reduceIte, List.cons.injEq, Out.dispatched.injEq, and_true, true_and] at h
+        refine ⟨hb, job, rest, rfl, h.1, ?_⟩
+        intro q hqm
+        simp only [bestFree, Bool.and_eq_true, List.all_eq_true, decide_eq_true_eq] at hb
+        exact hb.2 q hqm
+      · simp only [hb, Bool.false_eq_true, ↓reduceIte] at h; cases h
+
+/-- **Re-issue** — when a worker reports a failure other than cancellation
+(timeout, disconnect, any other error) for the job it holds, then, unless the
+job's batch ended in this very step (retry cap reached, hard deadline passed) or
+had ended before, the job is back in the work queue under its ORIGINAL index
+(and is again mapped to its batch), so it keeps its place ahead of all later
+requests. -/
+theorem C12_reissue (s : State) (p : Nat) (e : Err) (w : Worker) (job : Job)
+    (hq : s.quit = false) (hoff : offering s = false)
+    (hw : findW s.workers p = some w) (ha : w.active = some job)
+    (he1 : e ≠ .ok) (he2 : e ≠ .canceled) :
+    let s' := (step s (.result p e)).1
+    let bn := (s.queries.lookup job.idx).getD 0
+    (findB s'.batches bn).isSome = true →
+      ∃ j' ∈ s'.work, j'.idx = job.idx ∧ j'.batch = job.batch ∧ s'.queries.lookup job.idx = some bn := by
+  intro s' bn hl
+  have hs : s' = (stepResult s p e).1 := by
+    show (step s (.result p e)).1 = _
+    simp only [step, hq, hoff, Bool.false_eq_true, ↓reduceIte]
+  rw [hs] at hl ⊢
+  exact reissue_core s p e w job hw ha he1 he2 hl
+
+/-! Non-vacuity: concrete histories that meet the hypotheses and exercise the branches. -/
+
+/-- two batches in flight, a retry, a stale wake, a fresh wake, shutdown, a late submission -/
+def demo : List Ev :=
+  [.newBatch 2 false 2 true false, .peer 1, .accept 1, .newBatch 1 true 0 false false,
+   .result 1 .timeout, .accept 1, .wake 0 7, .result 1 .ok, .accept 1, .result 1 .ok,
+   .accept 1, .wake 1 0, .quit, .newBatch 3 false 2 false false]
+
+example : (run init demo).verdicts = [(0, .res .ok), (1, .res .timeout), (2, .shutdown)] := by decide
+example : Ev.quit ∈ demo ∧ (run init demo).nextBatch = 3 := by decide
+example : verdictCount (run init demo) 1 = 1 := by decide
+/-- a re-issued job keeps index 0 and is handed out again before job 1, with a doubled timeout -/
+example : outs init (demo.take 6) =
+    [.dispatched 1 0 0 2, .resultFor 0, .dispatched 1 0 1 4] := by decide
+/-- the hypotheses of `C12_reissue` hold in a reachable state and its conclusion is not vacuous -/
+example :
+    let s := run init (demo.take 4)
+    s.quit = false ∧ offering s = false ∧
+    findW s.workers 1 = some ⟨1, some ⟨0, 0, 0, 2⟩, false⟩ ∧
+    (findB (step s (.result 1 .timeout)).1.batches 0).isSome = true := by decide
+/-- `C12_rank`: with two free workers of different score only the better one may accept -/
+example :
+    let s := run init [.peer 1, .peer 2, .newBatch 1 false 2 false false, .accept 1, .result 1 .other]
+    (step s (.accept 1)).2 = [.ignored] ∧ (step s (.accept 2)).2 = [.dispatched 2 0 1 2] := by decide
 
 end Neutrino.Disp
